@@ -231,6 +231,12 @@ def make_harness(op, kind, edges, funcs, patch, ff="ELF"):
                     Pv(tag + "/R/returns-the-last-block-of-the-region", z3.BoolVal(ret is ch[-2]))
                 else:
                     Pv(tag + "/R/returns-a-block-of-the-region", z3.BoolVal(any(ret is b for b in ch[1:-1])))
+                # what _apply_modifications relies on for the NEXT modification of the same block (kernel_applymods.py assumes exactly
+                # this of insert / delete): the returned block ends where the region ends and starts no later than the first position a
+                # later modification can name (behind the inserted bytes / at the deletion point)
+                if isinstance(ret, gtirb.ByteBlock):
+                    Pv(tag + "/R/returned-block-ends-at-the-end-of-the-region", z(ret.offset) + z(ret.size) == B + S - L + P)
+                    Pv(tag + "/R/returned-block-starts-no-later-than-the-position-behind-the-modification", z(ret.offset) <= B + o + P)
             Pv(tag + "/G/interval-size-grew-by-the-size-change", z(bi.size) == size0 + P - L)
             # L: labels
             live = set(m.byte_blocks)
